@@ -82,6 +82,8 @@ func describe(t reflect.Type) *tyNode {
 		return &tyNode{K: 'P', Prim: "t"}
 	case t == durT:
 		return &tyNode{K: 'P', Prim: "d"}
+	case opqKind(t) >= 0:
+		return &tyNode{K: 'P', Prim: "o" + strconv.Itoa(opqKind(t))}
 	}
 	switch t.Kind() {
 	case reflect.Int:
@@ -269,13 +271,37 @@ type corpusType struct {
 	Node   *tyNode
 	Shapes [5]*shape
 	Dflts  []string
+	Opq    []int // opaque leaf kinds that occur in the type
 }
 
 var types []*corpusType
 var reqTypes []*corpusType   // the request-shaped part of the corpus (gen_types.py ReqGen)
 var namedTypes []*corpusType // the types over defined scalar types (gen_types.py NamedGen)
 var timeTypes []*corpusType  // types with a time.Time leaf
+var opqCorpus []*corpusType  // the types with opaque leaf kinds (gen_types.py OpqGen)
 var typeByName = map[string]*corpusType{}
+
+func collectOpq(n *tyNode, out *[]int) {
+	switch n.K {
+	case 'P':
+		if n.Prim[0] == 'o' {
+			k := int(n.Prim[1] - '0')
+			for _, x := range *out {
+				if x == k {
+					return
+				}
+			}
+			*out = append(*out, k)
+			sort.Ints(*out)
+		}
+	case 'R', 'L', 'M':
+		collectOpq(n.Elem, out)
+	case 'T':
+		for _, f := range n.Fields {
+			collectOpq(f.Ty, out)
+		}
+	}
+}
 
 func collectDefaults(n *tyNode, out *[]string) {
 	switch n.K {
@@ -309,6 +335,7 @@ func loadCorpus() {
 			ct.Shapes[tag] = sh
 		}
 		collectDefaults(node, &ct.Dflts)
+		collectOpq(node, &ct.Opq)
 		types = append(types, ct)
 		for _, lf := range ct.Shapes[0].Leaves {
 			if lf.Prim == "t" {
@@ -317,6 +344,8 @@ func loadCorpus() {
 			}
 		}
 		switch {
+		case i >= 540:
+			opqCorpus = append(opqCorpus, ct)
 		case i >= 480:
 			namedTypes = append(namedTypes, ct)
 		case i >= 400:
@@ -496,6 +525,8 @@ func genValue(r *hx.Rand, prim string, bad bool) (string, bool) {
 			return hx.Pick(r, durPool), false
 		}
 		return hx.Pick(r, durBad), true
+	case 'o':
+		return opqValue(r, int(prim[1]-'0'), bad), bad
 	}
 	panic("prim " + prim)
 }
@@ -523,6 +554,9 @@ func genCase(r *hx.Rand) caseT {
 	ct := hx.Pick(r, types)
 	if len(namedTypes) > 0 && r.Chance(1, 8) {
 		ct = hx.Pick(r, namedTypes)
+	}
+	if len(opqCorpus) > 0 && r.Chance(1, 8) {
+		ct = hx.Pick(r, opqCorpus)
 	}
 	c := caseT{T: ct.E.Name, Tag: r.Intn(5), Opts: genOpts(r)}
 	forceWarm := false
@@ -930,6 +964,9 @@ func prefill(r *hx.Rand, v reflect.Value) {
 	case t == durT:
 		v.SetInt(int64(r.Intn(5)) * int64(time.Second))
 		return
+	case opqKind(t) >= 0:
+		opqPrefill(r, opqKind(t), v)
+		return
 	}
 	switch t.Kind() {
 	case reflect.Int, reflect.Int8, reflect.Int16, reflect.Int32, reflect.Int64:
@@ -1002,6 +1039,9 @@ func render(v reflect.Value, l *hx.Line) {
 		return
 	case t == durT:
 		l.Tok("i").I64(v.Int())
+		return
+	case opqKind(t) >= 0:
+		l.Tok("t").Str(opqRender(opqKind(t), v))
 		return
 	}
 	switch t.Kind() {
@@ -1083,7 +1123,22 @@ func refParseTime(s string, custom []string) (string, bool) {
 	return "", false
 }
 
-func tableEntry(l *hx.Line, s string, extra *[]string, layouts []string) {
+func tableEntry(l *hx.Line, s string, extra *[]string, layouts []string, opq []int) {
+	defer func() {
+		// opaque kinds that occur in the type: kind, rendering of the parsed value (absent: the parse fails)
+		var ks []int
+		var rs []string
+		for _, k := range opq {
+			if v, ok := opqParse(k, s); ok {
+				ks = append(ks, k)
+				rs = append(rs, opqRender(k, v))
+			}
+		}
+		l.Nat(len(ks))
+		for i, k := range ks {
+			l.Nat(k).Str(rs[i])
+		}
+	}()
 	l.Str(s)
 	for _, base := range []int{10, 0} {
 		if i, err := strconv.ParseInt(s, base, 64); err == nil {
@@ -1446,7 +1501,7 @@ func emit(id string, c caseT, st *hx.Stats) string {
 	n := 0
 	for i := 0; i < len(strs); i++ {
 		var extra []string
-		tableEntry(tl, strs[i], &extra, eff.Layouts)
+		tableEntry(tl, strs[i], &extra, eff.Layouts, ct.Opq)
 		n++
 		for _, e := range extra {
 			note(e)
@@ -1690,9 +1745,20 @@ func fixedCases() []caseT {
 	}
 	// sequences: a pointer field with a default, absent twice (the first result is written through); and a
 	// day/month-ambiguous layout pair after an earlier request that only the second layout accepts
-	var seqP, seqT bool
+	var seqP, seqT, seqIP, seqNet bool
 	for _, ct := range types {
 		for _, lf := range ct.Shapes[0].Leaves {
+			// K04j: a net.IP / net.IPNet field with a default, absent twice (the first result is written through)
+			if lf.Kind == "prim" && !lf.Nested && lf.Dflt != "" && (lf.Prim == "o1" && !seqIP || lf.Prim == "o2" && !seqNet) {
+				if _, ok := opqParse(int(lf.Prim[1]-'0'), lf.Dflt); ok {
+					if lf.Prim == "o1" {
+						seqIP = true
+					} else {
+						seqNet = true
+					}
+					out = append(out, caseT{T: ct.E.Name, Tag: 0, Entry: "G", Opts: optsT{-1, -1, -1, false, false, nil}, HasWarm: true, NT: true})
+				}
+			}
 			if !seqP && lf.Kind == "ptr" && lf.Prim[0] == 'i' && !lf.Nested && lf.Dflt != "" {
 				if _, err := strconv.Atoi(lf.Dflt); err == nil && lf.Dflt != "77" && len(lf.Dflt) < 3 {
 					seqP = true
